@@ -376,6 +376,22 @@ class Repo:
                     raise NotConst("dict unpack")
                 d[f(k)] = f(v)
             return d
+        if isinstance(e, ast.UnaryOp) and isinstance(e.op, ast.Not):
+            v = f(e.operand)
+            if isinstance(v, (bool, int, str, tuple)) or v is None:
+                return not v
+            raise NotConst("not")
+        if isinstance(e, ast.BoolOp):
+            # short-circuit: decided by a constant operand that settles it before any non-constant one is needed
+            is_and = isinstance(e.op, ast.And)
+            last = None
+            for x in e.values:
+                last = f(x)
+                if not (isinstance(last, (bool, int, str, tuple)) or last is None):
+                    raise NotConst("boolop operand")
+                if bool(last) != is_and:
+                    return last
+            return last
         if isinstance(e, ast.UnaryOp) and isinstance(e.op, ast.USub):
             v = f(e.operand)
             if isinstance(v, (int, float)):
